@@ -24,6 +24,117 @@ def flag_true_edges(body, cfg, du):
     return out
 
 
+def _const_some_true(body, sl, op):
+    """is the operand a constant `Some(true)` (a promoted `&Some(true)` or a local built as such)?"""
+    from vlib.facts import promoted_body
+    def some_true(stmts):
+        return any(st.kind == "assign" and st.rv == "agg" and isinstance(st.agg, dict) and "Option" in st.agg.get("adt", "") and st.agg.get("variant") == "Some"
+                   and st.ops and st.ops[0].is_const and st.ops[0].cint() == 1 for st in stmts)
+    for k, o in sl.origins(op):
+        if k == "const":
+            dbg = str((o.const or {}).get("dbg", "") or "")
+            if "promoted[" in dbg:
+                pb = promoted_body(body, dbg)
+                if pb is not None and some_true(pb.stmts()): return True
+        elif k == "agg" and some_true([o]): return True
+    return False
+
+
+def _reads_field(body, du, op, names):
+    """name of the Request field (one of `names`) the operand reads / points to, else None"""
+    if op.place is None: return None
+    for f in op.place.fields():
+        if f in names: return f
+    for l in ref_chain(du, op.place.l):
+        for k, d in du.value_defs(l):
+            if k == "stmt" and d.kind == "assign":
+                for q in ([d.rplace] if d.rplace is not None else []) + [o.place for o in d.ops if o.place is not None]:
+                    for f in q.fields():
+                        if f in names: return f
+    return None
+
+
+def flags_on_paths(body, cfg, du, sl, target_bb):
+    """value-level form of the call-mode test (`let more = request.more == Some(true); ...`): for every feasible path from the
+    entry to `target_bb`, what the branches taken say about each flag. Returns a list of {flag: True|False|None} (None = no
+    branch on this path depends on the flag)."""
+    from vlib.cfg import enumerate_paths
+    from vlib.pathcond import literals
+    flags = ("more", "oneway", "upgrade")
+    out = []
+    hit = [False]
+    paths = enumerate_paths(cfg, 0, lambda blk: blk.idx == target_bb or blk.term.kind == "return", du=du, on_limit=lambda: hit.__setitem__(0, True))
+    if hit[0]: return None
+    for pth in paths:
+        if pth[-1] != target_bb: continue
+        st = {f: None for f in flags}
+        for lit in literals(body, pth):
+            if lit.kind != "call" or lit.obj.callee.name not in ("eq", "ne") or len(lit.obj.args) != 2: continue
+            a, b = lit.obj.args
+            for x, y in ((a, b), (b, a)):
+                f = _reads_field(body, du, x, flags)
+                if f and _const_some_true(body, sl, y):
+                    st[f] = lit.truth == (lit.obj.callee.name == "eq")
+        out.append(st)
+    return out
+
+
+def start_by_paths(body, cfg, du, sl, succ):
+    """Start decided on the paths that reach the success reply, whatever shape the test has: every such path must have compared the
+    method name with <IFACE>.Start and established that `parameters` is absent or an empty object. Returns the list of
+    complaints ([] = fine), or None when the paths cannot be enumerated."""
+    from vlib.cfg import enumerate_paths
+    from vlib.pathcond import literals
+    hit = [False]
+    paths = enumerate_paths(cfg, 0, lambda blk: blk.idx in succ or blk.term.kind == "return", du=du, on_limit=lambda: hit.__setitem__(0, True))
+    if hit[0]: return None
+    def reads_params(a, need=()):
+        if a.place is None: return False
+        places = [a.place]
+        for l in ref_chain(du, a.place.l):
+            for k, d in du.value_defs(l):
+                if k == "stmt" and d.kind == "assign":
+                    places += ([d.rplace] if d.rplace is not None else []) + [o.place for o in d.ops if o.place is not None]
+        return any("parameters" in q.fields() and all(any(e.startswith(n) for e in q.p) for n in need) for q in places)
+    def discr_taken(pth):
+        """(place, label) of every discriminant switch along the path"""
+        out = []
+        for i in range(len(pth) - 1):
+            t = body.blocks[pth[i]].term
+            if t.kind != "switch" or t.discr is None or t.discr.place is None or t.discr.place.p: continue
+            ds = du.value_defs(t.discr.place.l)
+            if len(ds) == 1 and ds[0][0] == "stmt" and ds[0][1].rv == "discr" and ds[0][1].rplace is not None:
+                labs = [lab for lab, d in cfg.succ[pth[i]] if d == pth[i + 1]]
+                if labs: out.append((ds[0][1].rplace, labs[0]))
+        return out
+    n = 0; no_method = 0; no_params = 0
+    for pth in paths:
+        if pth[-1] not in succ: continue
+        n += 1
+        lits = literals(body, pth)
+        m_ok = False; p_ok = False
+        for lit in lits:
+            if lit.kind != "call": continue
+            t = lit.obj; nm = t.callee.name
+            if nm in ("eq", "ne") and len(t.args) == 2 and lit.truth == (nm == "eq"):
+                if (IFACE + ".Start") in const_strings(body, sl, t.args[0]) + const_strings(body, sl, t.args[1]): m_ok = True
+                if any(reads_params(a) for a in t.args):
+                    built = [x for x in body.stmts() if x.kind == "assign" and x.rv == "agg" and isinstance(x.agg, dict) and x.agg.get("variant") == "Object"]
+                    newmap = [c for c in body.calls("=new") if "serde_json" in c.callee.path and "Map" in c.callee.path]
+                    if built and newmap: p_ok = True
+            if nm == "is_none" and lit.truth and "Option" in t.callee.path and t.args and reads_params(t.args[0]): p_ok = True
+            if nm == "is_empty" and lit.truth and t.args and reads_params(t.args[0], need=("as Some", "as Object")): p_ok = True
+        for place, lab in discr_taken(pth):
+            if place.fields()[-1:] == ["parameters"] and not any(e.startswith("as ") for e in place.p) and lab == 0: p_ok = True     # None
+        if not m_ok: no_method += 1
+        if not p_ok: no_params += 1
+    out = []
+    if n == 0: out.append("Start: no path reaches the success reply")
+    if no_method: out.append("Start: %d of %d paths to the success reply have not compared the method name with %s.Start" % (no_method, n, IFACE))
+    if no_params: out.append("Start: %d of %d paths to the success reply have not established `parameters` absent or an empty object" % (no_params, n))
+    return out
+
+
 def run(cx):
     cx.rule("C19.R1", "success is dominated by the checks: in each of the 13 step methods every success reply (for Test11: the silent Ok return) is reachable only through check_client_id()==true (all but Start) and the `check`==true edge, where check is false in every arm except the comparison `expected == received` of the step's own argument struct; the expected value never depends on a received parameter other than the client id")
     cx.rule("C19.R2", "step table: method testNN checks the client against (\"TestNN\", next step in declaration order), compares the method name with org.varlink.certification.TestNN, and accepts exactly its call mode (Test10: more, Test11: oneway, others: none of more/oneway/upgrade)")
@@ -90,14 +201,17 @@ def step(cx, S, body):
         cx.check(not ci, "C19.R1", "cert:Start:no-client-id", site, "Start must not require a client id", note_ok="no client id needed")
     # ---- the `check` switch: the one whose false edge reaches reply_certification_error and whose true edge dominates success
     cerr = [t.bb for t in body.calls("=reply_certification_error")]
-    chk = None
+    chk = None; cands = []
     for b in body.blocks:
         if b.cleanup or b.term.kind != "switch": continue
         c = switch_cond(body, du, b.term)
         if c.kind in ("multi", "call", "const"):
             te, fe = bool_edges(b.term, c)
             if cerr and all(x in cfg.after(fe) for x in cerr) and all(cfg.edge_dominates(te, x) for x in succ) and not any(x in cfg.after(fe) for x in succ):
-                chk = (b.term, c, te, fe)
+                cands.append((b.term, c, te, fe))
+    # several gates may stand in a row (flags, method name, ..): the verdict is the innermost one, behind all the others
+    for cand in cands:
+        if not any(o is not cand and o[0].bb in cfg.after(cand[2]) for o in cands): chk = cand
     if chk is None:
         cx.bad("C19.R1", "cert:%s:check-dominates" % S, site, "%s is not dominated by the comparison with the canonical request (no `check` switch whose false edge answers CertificationError)" % what); return
     term, c, te, fe = chk
@@ -125,7 +239,10 @@ def step(cx, S, body):
             others = []
     why = []
     if any(d.ops[0].cint() != 0 for d in consts): why.append("an arm sets check = true without comparing")
-    if others: why.append("check is computed by something other than a comparison")
+    if others:
+        import os
+        if os.environ.get("VERIF_DEBUG"): print("DEBUG others", S, loc, others, bool_sources(du, loc))
+        why.append("check is computed by something other than a comparison")
     if S == "Start":
         # Start: explicit pattern test; `true` only behind method == literal and empty parameters
         trues = [d for d in consts if d.ops[0].cint() != 0]
@@ -173,6 +290,10 @@ def step(cx, S, body):
                 np += 1
                 if not any(params_ok(l) for l in literals(body, pth)): badp += 1
             if np == 0 or badp: why.append("Start: %d of %d accepting paths have not established `parameters` absent or equal to the empty object (a present non-object value would be accepted)" % (badp, np))
+        if why:
+            alt = start_by_paths(body, cfg, du, sl, succ)
+            if alt is not None and not alt: why = []
+            elif alt: why = why + alt
         mode = None
     else:
         def eq_on_args(t):
@@ -183,6 +304,10 @@ def step(cx, S, body):
                 if a.place is None: continue
                 if any((S + "_Args") in body.ty(l) for l in ref_chain(du, a.place.l)): return True
                 if any(k == "call" and o.callee.name == "from_value" and any((S + "_Args") in str(x) for x in o.callee.targs) for k, o in Slice(body, du, extra_pass=("=clone", "=as_ref", "=ok", "=unwrap_or_default")).origins(a)): return True
+                # inside an inlined generic helper the operand is a `&T`; the value it was given by this step carries the type
+                gs = Slice(body, du, extra_pass=("=clone", "=as_ref"))
+                gs.origins(a)
+                if any((S + "_Args") in body.ty(l) for l, _ in gs.last_seen): return True
             return False
         if len(eqs) != 1 or not eq_on_args(eqs[0]):
             why.append("check is not `expected == received` on %s_Args (defs: %s)" % (S, [str(d.callee)[:60] for d in eqs]))
@@ -199,13 +324,13 @@ def step(cx, S, body):
                 if exp_locals & T:
                     why.append("the expected value is built from a received parameter: a deviating value is compared with itself")
             # method-name test dominates the comparison
-            meq = [t for t in body.calls("=eq") if (IFACE + "." + S) in (const_strings(body, sl, t.args[1]) + const_strings(body, sl, t.args[0]))]
+            meq = [t for t in body.calls("=eq", "=ne") if len(t.args) == 2 and (IFACE + "." + S) in (const_strings(body, sl, t.args[1]) + const_strings(body, sl, t.args[0]))]
             okm = False
             for t in meq:
                 for b in body.blocks:
                     if b.cleanup or b.term.kind != "switch": continue
                     cc = switch_cond(body, du, b.term)
-                    if cc.kind == "call" and cc.term is t and cfg.edge_dominates(bool_edges(b.term, cc)[0], E.bb): okm = True
+                    if cc.kind == "call" and cc.term is t and cfg.edge_dominates(bool_edges(b.term, cc)[0 if t.callee.name == "eq" else 1], E.bb): okm = True
             cx.check(okm, "C19.R2", "cert:%s:method-literal" % S, site, "the comparison is not guarded by method == %s.%s" % (IFACE, S), note_ok="m == \"%s.%s\"" % (IFACE, S))
             # call mode
             fe_ = flag_true_edges(body, cfg, du)
@@ -213,6 +338,12 @@ def step(cx, S, body):
             reach = {f: any(E.bb in cfg.after(e) for e in es) for f, es in fe_.items()}
             wantm = MODE.get(S)
             okmode = all((dom[f] if f == wantm else not reach[f]) for f in ("more", "oneway", "upgrade")) and all(fe_[f] for f in fe_)
+            if not okmode and not any(fe_.values()):
+                # no pattern test at all: the flags may be computed as values and combined; decide per path
+                fp = flags_on_paths(body, cfg, du, sl, E.bb)
+                if fp:
+                    okmode = all(all((st[f] is True) if f == wantm else (st[f] is False) for f in ("more", "oneway", "upgrade")) for st in fp)
+                    dom = {f: all(st[f] is True for st in fp) for f in dom}; reach = {f: any(st[f] is not False for st in fp) for f in reach}
             cx.check(okmode, "C19.R2", "cert:%s:call-mode" % S, site,
                      "step %s accepts the wrong call modes (required: %s; comparison dominated by flag==true: %s; reachable with flag==true: %s)" % (S, wantm or "none", dom, reach),
                      note_ok="mode %s" % (wantm or "plain call: more/oneway/upgrade rejected"))
@@ -236,7 +367,10 @@ def r3(cx):
     cx.saw(cc)
     ccfg = Cfg(cc); cdu = DefUse(cc); csl = Slice(cc, cdu)
     ne = [t for t in cc.calls("=ne", "=eq")]
-    adv = [s for s in cc.stmts() if s.kind == "assign" and s.lhs.p and s.lhs.fields()[-1:] == ["test"]]
+    # the advance: a store into (a field of) the context obtained from the lookup, whatever the field is called
+    from vlib.facts import Place
+    def from_lookup(l): return any(k == "call" and o.callee.name in ("get_mut", "entry", "index_mut", "or_insert", "or_insert_with") for k, o in csl.origins(Place({"l": l, "p": []})))
+    adv = [s for s in cc.stmts() if s.kind == "assign" and s.lhs.p and "*" in s.lhs.p and s.lhs.fields() and from_lookup(s.lhs.l)]
     trues = [s for s in cc.stmts() if s.kind == "assign" and s.lhs.l == 0 and s.rv == "use" and s.ops[0].is_const and s.ops[0].cint() == 1]
     why = []
     if len(ne) != 1 or len(adv) != 1 or len(trues) != 1: why.append("expected one comparison of context.test, one advance and one `true` (found %d/%d/%d)" % (len(ne), len(adv), len(trues)))
@@ -257,6 +391,13 @@ def r3(cx):
     nc = cx.mir.one(PKG, "ClientIds::new_client_id")
     sl = Slice(nc)
     lits = [c for t in nc.calls("=into") for a in t.args for c in const_strings(nc, sl, a)]
+    # ... or the first variant of a step enum, stored in the context that is inserted
+    for st in nc.stmts():
+        if st.kind == "assign" and st.rv == "agg" and isinstance(st.agg, dict) and "TestContext" in st.agg.get("adt", ""):
+            for o in st.ops:
+                for k, v in sl.origins(o):
+                    if k == "const" and v.const and v.const.get("val"): lits.append(str(v.const["val"]).split("::")[-1])
+                    if k == "agg" and isinstance(v.agg, dict) and v.agg.get("variant"): lits.append(v.agg["variant"])
     cx.check("Test01" in lits, "C19.R3", "cert:new_client_id:starts-at-Test01", nc.sp, "a new client does not start at Test01 (%s)" % lits, note_ok="new client -> Test01")
 
     # ids of concurrent clients must differ: the id is derived from a clock read taken under the write lock, at full resolution
